@@ -95,6 +95,7 @@ pub fn props_for(family: &str) -> Vec<&'static str> {
         "excl" => vec!["C04"],
         "count" => vec!["C06"],
         "sharedsite" => vec!["C07"],
+        "arms" => vec!["C06"],
         _ => vec!["C05", "C04"],
     }
 }
@@ -145,6 +146,18 @@ pub fn generate(family: &str, profile: &str, seed: u64, index: u64) -> TScenario
                 calls[t].insert(pos, 100 + rng.below(900) as u32);
             }
             classes.push(format!("N{n}-m{k}-rej{rej}-threads{}", nt.min(16)));
+        }
+        "arms" => {
+            // every counted arm of fake! (generated from the macro source): exactly N calls in all,
+            // split over 2-4 threads; nothing may be lost or double-counted
+            let nt = 2 + rng.below(3) as usize;
+            calls = vec![Vec::new(); nt];
+            n = 2 + rng.below(7) as usize;
+            for _ in 0..n {
+                let t = rng.below(nt as u64) as usize;
+                calls[t].push(rng.below(100) as u32);
+            }
+            classes.push(format!("arm{}-N{n}-threads{nt}", if crate::arms_gen::ARM_COUNT > 0 { index as usize % crate::arms_gen::ARM_COUNT } else { 0 }));
         }
         "sharedsite" => {
             // 2-4 threads, each 1-3 lifetimes built by the SAME fake!(.., times: N) line (a shared
@@ -371,6 +384,32 @@ pub fn execute(sc: &TScenario, sh: &Shared) -> Value {
             let r = catch_unwind(AssertUnwindSafe(move || drop(inj)));
             *ev2.lock().unwrap() = Some(r.map_err(|p| panic_msg(&p)));
         }
+        "arms" => {
+            if crate::arms_gen::ARM_COUNT == 0 {
+                viol("arms-family-skipped", "the fake! macro could not be parsed by the generator".into());
+                return;
+            }
+            let k = scn.index as usize % crate::arms_gen::ARM_COUNT;
+            crate::arms_gen::ARMS_N.store(scn.n, Ordering::SeqCst);
+            let mut inj = InjectorPP::new();
+            crate::arms_gen::install(k, &mut inj);
+            let mut hs = Vec::new();
+            for (ti, args) in scn.calls.iter().enumerate() {
+                let args = args.clone();
+                hs.push(simsched::thread::spawn(move || {
+                    for a in args {
+                        simsched::thread::yield_now();
+                        let ok = crate::arms_gen::call(k, a);
+                        OUTCOMES.lock().unwrap_or_else(|p| p.into_inner()).push((ti, a, if ok { 0 } else { 1 }));
+                    }
+                }));
+            }
+            for h in hs {
+                let _ = h.join();
+            }
+            let r = catch_unwind(AssertUnwindSafe(move || drop(inj)));
+            *ev2.lock().unwrap() = Some(r.map_err(|p| panic_msg(&p)));
+        }
         "sharedsite" => {
             N_EXPECT.store(scn.n, Ordering::SeqCst);
             let n = scn.n as u32;
@@ -489,6 +528,20 @@ pub fn execute(sc: &TScenario, sh: &Shared) -> Value {
         }
         if over > 0 && sc.calls.len() > 1 {
             probes.insert("over_call_under_contention".into(), json!(1));
+        }
+    }
+    if sc.family == "arms" && crate::arms_gen::ARM_COUNT > 0 {
+        let k = sc.index as usize % crate::arms_gen::ARM_COUNT;
+        let outs = OUTCOMES.lock().unwrap_or_else(|p| p.into_inner()).clone();
+        let bad = outs.iter().filter(|(_, _, c)| *c != 0).count();
+        let what = format!("arm `{}`: times = {} and exactly {} matching call(s) made from {} thread(s)", crate::arms_gen::arm_name(k), sc.n, outs.len(), sc.calls.len());
+        if bad > 0 {
+            out_v.push(json!({"tag": "call-within-budget-rejected-under-concurrency", "props": ["C06"], "detail": format!("{what}: {bad} call(s) panicked")}));
+        }
+        match exit_verdict.lock().unwrap().clone() {
+            Some(Ok(())) => {}
+            Some(Err(msg)) => out_v.push(json!({"tag": "concurrent-accounting-inexact", "props": ["C06"], "detail": format!("{what}; scope exit panicked with {msg:?}")})),
+            None => out_v.push(json!({"tag": "scope-exit-not-reached", "props": ["C06"], "detail": what})),
         }
     }
     let mut faults = serde_json::Map::new();
